@@ -38,6 +38,19 @@ def random_histories(ctx, n, length):
     return cases
 
 
+def bulk_histories():
+    """Objects whose attribute index fills most of one B-tree leaf (capacity 371 records at the 4 KiB node size), then a few
+    deletions that leave the leaf more than half full, then further insertions: the occupancy at which deferred (lazy)
+    deletion really defers, and at which inserts are refused for lack of room."""
+    cases = []
+    for k, (n, d, more) in enumerate([(186, 1, 0), (200, 5, 3), (300, 2, 0), (371, 1, 2), (371, 40, 45), (380, 3, 0)]):
+        ops = [{"op": "put", "n": "n%d" % i, "v": ["i32", "f64", "s7", "i8", "ai3"][i % 5]} for i in range(n)]
+        ops += [{"op": "del", "n": "n%d" % (i * 37 % n), "v": ""} for i in range(d)]
+        ops += [{"op": "put", "n": "m%d" % i, "v": "i16"} for i in range(more)]
+        cases.append({"cfg": {"obj": "dataset" if k % 3 else "group", "sb": [2, 0, 3][k % 3], "pre": 0, "style": 0}, "ops": ops})
+    return cases
+
+
 def nontrivial(case):
     """A history is non-trivial if it overwrites or deletes a name that is present at that point."""
     present = set("f%d" % i for i in range(case["cfg"]["pre"]))
@@ -67,7 +80,7 @@ def run(ctx):
     cases += [json.loads(c) for c in gen2]
     ngen = len(cases)
     # 3. long random histories beyond the bound
-    cases += random_histories(ctx, 400 if thorough else 40, 300)
+    cases += random_histories(ctx, 400 if thorough else 40, 300) + bulk_histories()
     path = ctx.write_cases(cases)
     # 4. replay against the real library
     trace, dout = ctx.drive("c02", path)
